@@ -182,6 +182,14 @@ def run_history(version, routes, ops, timeout=30, async_validation=False):
             elif op[0] == "inbound":
                 loop.create_task(inbound(op[1]))
                 loop.settle()
+            elif op[0] == "burst":
+                # many frames handed to route_message() back to back, as a reader does that finds them all buffered:
+                # no other task runs in between
+                async def many(raws):
+                    for raw in raws:
+                        await inbound(raw)
+                loop.create_task(many(op[1]))
+                loop.settle()
             elif op[0] == "tick":
                 if op[1] > 0:
                     loop.advance_to(clock.t + op[1])
@@ -281,7 +289,19 @@ def shard_source(cases, view):
         C.clist(["\n" + c for c in cases]), view)
 
 
+def expand_ops(ops):
+    """bursts as the individual inbound frames they consist of (what the oracles and the model see)"""
+    out = []
+    for o in ops:
+        if o[0] == "burst":
+            out += [("inbound", raw) for raw in o[1]]
+        else:
+            out.append(o)
+    return out
+
+
 def chcase(version, routes, ops, timeout, res):
+    ops = expand_ops(ops)
     cops = [cop(o) for o in ops]
     if any(x is None for x in cops):
         return None
